@@ -4,14 +4,14 @@ import regexcommon as rc
 
 LEVEL = "model_checking"
 ROUTES = ["nfa0", "ast"]
-FAMS = ["F1", "F2", "F3", "F4", "F5", "F6", "F7", "F8", "F10", "F13"]
+FAMS = ["F1", "F2", "F3", "F4", "F5", "F6", "F7", "F8", "F10", "F13", "F14"]
 
 
 def run(ck):
     if ck.args.replay:
         return rc.replay_file(ck, "C10", ck.args.replay)
     maxsize = 3 if ck.tier == "quick" else 4
-    rc.generate(ck, maxsize, FAMS)
+    rc.generate(ck, maxsize, FAMS, f14=16 if ck.tier == "quick" else 2)
     rc.random_terms(ck, 20 if ck.tier == "quick" else 200, 12, keep=300 if ck.tier == "quick" else 4000)
     arts = rc.export(ck, ROUTES, FAMS)
     if ck.args.selftest:
